@@ -12,7 +12,7 @@ trap 'git -C /repo checkout -- . ; git -C /repo clean -fdq src tests 2>/dev/null
 for ID in "$@"; do
   OUT=$(cd /verif && VERIF_SEED=${VERIF_SEED:-5} ./check "$ID" ${TIER:-quick} 2>&1)
   RC=$?
-  KEY=$(echo "$OUT" | grep -m1 "key=" | sed 's/^ *//' | cut -c1-160)
+  KEY=$(echo "$OUT" | grep -A1 "^VIOLATION" | grep -m1 "key=" | sed 's/^ *//' | cut -c1-200)
   case $RC in
     0) echo "MISSED  $ID  $(echo "$OUT" | tail -1 | cut -c1-120)";;
     1) echo "CAUGHT  $ID  $KEY";;
